@@ -100,6 +100,16 @@ def build_state(spec):
         if n == 1:
             cores[0] = np.zeros((1, 2, 1, 1), dtype=complex)
             cores[0][0, 1, 0, 0] = 1.0
+    elif kind == "skewed":     # outcome 1 is unlikely on every site (conditional probability ~ eps^2): together with
+        # variates that force it, the joint probability of the prefix drawn so far falls far below machine epsilon
+        ranks = spec["ranks"]
+        eps = float(spec.get("eps", 0.1))
+        cores = []
+        for i in range(n):
+            c = np.zeros((ranks[i], 2, 1, ranks[i + 1]), dtype=complex)
+            c[:, 0, 0, :] = np.eye(ranks[i], ranks[i + 1]) + 0.01 * g.standard_normal((ranks[i], ranks[i + 1]))
+            c[:, 1, 0, :] = eps * (g.standard_normal((ranks[i], ranks[i + 1])) + 1j * g.standard_normal((ranks[i], ranks[i + 1])))
+            cores.append(c)
     else:
         raise ValueError(kind)
     cores = right_orthonormalise(cores)
@@ -107,8 +117,16 @@ def build_state(spec):
     if pad:
         # many-qubit registers: computational-basis sites (rank-1 bonds) in front of and behind the entangled block.
         # The dense oracle only ever sees the block; a padding site measured yields its basis bit with probability one.
+        # A padding entry is a bit (basis state) or [p0, phi]: the single-qubit state sqrt(p0)|0> + e^{i phi} sqrt(1-p0)|1>
+        # (still a rank-1 bond, so the register stays a product of padding and block; a register with more than 52
+        # such sites has NO outcome whose probability is above machine epsilon).
         def basis(bit):
             c = np.zeros((1, 2, 1, 1), dtype=complex)
+            if isinstance(bit, (list, tuple)):
+                p0, phi = float(bit[0]), float(bit[1])
+                c[0, 0, 0, 0] = np.sqrt(p0)
+                c[0, 1, 0, 0] = np.sqrt(1.0 - p0) * np.exp(1j * phi)
+                return c
             c[0, bit, 0, 0] = 1.0
             return c
         cores = [basis(b) for b in pad["left"]] + cores + [basis(b) for b in pad["right"]]
@@ -144,13 +162,17 @@ def predict(marg, U):
     mind = 1.0
     for s in range(N):
         bits = []
+        amp = 1.0     # an outcome of conditional probability q << 1 may be small by cancellation, which amplifies the
+        # relative rounding error of everything conditioned on it by up to 1/q: distances are discounted accordingly
         for i in range(k):
             p0 = cond_p0(marg, bits)
             if p0 is None:
                 return None, 0.0
             u = U[s, i]
-            mind = min(mind, abs(u - p0))
+            mind = min(mind, abs(u - p0) / amp)
             b = 1 if u > p0 else 0
+            q = (1.0 - p0) if b else p0
+            amp *= max(1.0, 1e-3 / max(q, 1e-300))
             bits.append(b)
             out[s, i] = b
     return out, mind
@@ -163,10 +185,16 @@ def adversarial_plan(g, marg, N, k):
     top = 1.0 - 2.0 ** -53
     for s in range(N):
         bits = []
+        rare = int(g.integers(0, k + 1)) if g.random() < 0.3 else 0   # this row takes the rarer outcome on its first `rare` sites
         for i in range(k):
             p0 = cond_p0(marg, bits)
             c = g.integers(0, 6)
-            if c == 0:
+            if p0 is None:
+                U[s, i:] = g.uniform(size=k - i) * top
+                break
+            if i < rare and min(p0, 1.0 - p0) >= 1e-3:
+                u = 0.0 if p0 < 0.5 else top
+            elif c == 0:
                 u = p0 - 1e-6
             elif c == 1:
                 u = p0 + 1e-6
@@ -265,11 +293,30 @@ class Run(object):
                 self.probes["variate_on_boundary_skipped"] += 1
                 return "skip"
             want[:, cols_blk] = wb
+        logp = np.zeros(N)
         for j, x in enumerate(ms):
             if x < L:
-                want[:, j] = self.pad["left"][x]
+                e = self.pad["left"][x]
             elif x >= L + B:
-                want[:, j] = self.pad["right"][x - L - B]
+                e = self.pad["right"][x - L - B]
+            else:
+                continue
+            if isinstance(e, (list, tuple)):
+                # superposition site of a product register: its conditional probability is p0 whatever was drawn before
+                p0 = float(e[0])
+                if np.min(np.abs(U[:, j] - p0)) < 1e-7:
+                    self.probes["variate_on_boundary_skipped"] += 1
+                    return "skip"
+                want[:, j] = (U[:, j] > p0)
+                logp += np.log(np.where(want[:, j] > 0, 1.0 - p0, p0))
+                self.probes["padded_superposition_site_measured"] += 1
+            else:
+                want[:, j] = e
+        if logp.min() < -600.0:       # the joint probability itself would underflow: not a statement about the sampler
+            self.probes["padded_underflow_skipped"] += 1
+            return "skip"
+        if logp.max() < math.log(2.0 ** -52):
+            self.probes["padded_every_outcome_below_machine_epsilon"] += 1
         seen = {"ok": True}
 
         def plan(shape):
@@ -476,7 +523,7 @@ class Run(object):
         return "ok"
 
 
-KINDS = ("random", "random", "random", "product", "mixed_product", "basis", "ghz", "ghz_eq", "w")
+KINDS = ("random", "random", "random", "product", "mixed_product", "basis", "ghz", "ghz_eq", "w", "skewed")
 
 
 def swarm_config(seed):
@@ -488,7 +535,8 @@ def swarm_config(seed):
         "max_rank": rnd.choice((1, 2, 3, 4, 6) if deep else (1, 2, 3, 4)),
         "length": rnd.choice((1, 2, 3, 5)),
         "big_p": rnd.choice((0.0, 0.05, 0.2)),
-        "kinds": rnd.choice((KINDS, ("random",), ("ghz", "ghz_eq", "w", "basis"), ("ghz_eq", "basis"), ("product", "mixed_product", "random"))),
+        "kinds": rnd.choice((KINDS, ("random",), ("ghz", "ghz_eq", "w", "basis"), ("ghz_eq", "basis"), ("product", "mixed_product", "random"),
+                              ("skewed", "random"))),
     }
 
 
@@ -502,15 +550,25 @@ def generate_and_run(seed, keep_events=False):
     try:
         n = rnd.randint(1, cfg["max_n"])
         kind = rnd.choice(cfg["kinds"])
+        if kind == "skewed" and rnd.random() < 0.7:
+            n = max(n, min(8, cfg["max_n"] + 4))     # long runs of unlikely outcomes need sites to happen on
         ranks = [1] + [rnd.randint(1, cfg["max_rank"]) for _ in range(n - 1)] + [1]
         rec = {"op": "state", "spec": {"n": n, "kind": kind, "ranks": ranks, "sub_seed": rnd.getrandbits(48),
                                        "via_sut": rnd.random() < 0.4, "realify": rnd.random() < 0.4}}
+        if kind == "skewed":
+            rec["spec"]["eps"] = rnd.choice((0.3, 0.1, 0.07, 0.05, 0.04))
         padded = rnd.random() < 0.08
         if padded:
             tot = rnd.choice((12, 30, 64, 66, 70))
             nl = rnd.randint(0, max(0, tot - n))
-            rec["spec"]["pad"] = {"left": [rnd.randint(0, 1) for _ in range(nl)],
-                                  "right": [rnd.randint(0, 1) for _ in range(max(0, tot - n - nl))]}
+            sup = rnd.choice((0.0, 0.0, 0.3, 1.0))    # fraction of padding sites in a superposition (rank-1 bond all the same)
+
+            def pad_entry():
+                if rnd.random() < sup:
+                    return [rnd.choice((0.5, 0.5, round(rnd.uniform(0.05, 0.95), 6), 1e-3, 0.999)), round(rnd.uniform(0.0, 6.283), 6)]
+                return rnd.randint(0, 1)
+            rec["spec"]["pad"] = {"left": [pad_entry() for _ in range(nl)],
+                                  "right": [pad_entry() for _ in range(max(0, tot - n - nl))]}
             rec["spec"]["via_sut"] = False
         state_rec = rec
         records.append(rec)
@@ -525,6 +583,8 @@ def generate_and_run(seed, keep_events=False):
         n_all = n + (len(state_rec["spec"]["pad"]["left"]) + len(state_rec["spec"]["pad"]["right"]) if padded else 0)
         for _ in range(cfg["length"]):
             k = rnd.randint(1, n)
+            if kind == "skewed" and rnd.random() < 0.5:
+                k = n
             measure = sorted(rnd.sample(range(n), k))
             if padded:
                 k = rnd.choice((rnd.randint(1, n_all), n_all, n_all))
@@ -575,12 +635,14 @@ def replay(records, keep_events=False):
 
 NAME = "born"
 RULE = ("one history = one normalised right-orthonormal n-qubit state (n 1-8, ranks 1-4, complex; random / product / "
-        "computational-basis / GHZ / W; own QR preparation or the library's ortho_right/norm; all-complex or minimal-dtype "
+        "computational-basis / GHZ / W / skewed (outcome 1 unlikely on every site); optionally embedded in a product register "
+        "of up to 70 qubits whose other sites are basis states or single-qubit superpositions (more than 52 of them: no "
+        "outcome has a probability above machine epsilon); own QR preparation or the library's ortho_right/norm; all-complex or minimal-dtype "
         "storage) followed by 1-5 sampler calls on the SAME state object, between which the caller may apply a random "
         "single-qubit unitary to one site in place, each with a measured "
         "site set (sorted or shuffled), a sample count (1-64, or 2000-20000 in stream mode) and a variate plan served "
         "through the numpy.random.rand seam: constant, adversarial (+-1e-6 around each conditional probability on the "
-        "oracle's path, 0.0, 1-2^-53), seeded matrix, seeded stream. NON-TRIVIAL = at least one sampler call whose "
+        "oracle's path, 0.0, 1-2^-53, and rows that take the rarer outcome on a prefix of the sites), seeded matrix, seeded stream. NON-TRIVIAL = at least one sampler call whose "
         "output was compared exactly with the dense inverse-CDF prediction; DISTINCT by (n, ranks, state kind, and per "
         "call: measured sites, N bucket, mode).")
 COMPONENTS = {
